@@ -701,6 +701,19 @@ def as_map(v):
     return None
 
 
+def seq_base(v):
+    """Base sequence of a position-preserving (unfiltered, one-to-one) view, else None."""
+    if v[0] == "phi":
+        a, b = seq_base(v[2]), seq_base(v[3])
+        return a if a == b else None
+    if v[0] in ("comp", "copy"):
+        m = as_map(v)
+        return m[2] if m and not m[3] else None
+    if v[0] in ("attr", "param"):
+        return v
+    return None
+
+
 def prefix_map(v):
     """Map describing the leading len(base) elements of a list value."""
     k = v[0]
@@ -755,6 +768,14 @@ def simp(v):
             pm = prefix_map(base)
             if pm and not pm[3] and pm[2] == idx[1]:
                 return simp(subst(pm[1], {pm[0]: idx[3][0]}))
+    if k == "join" and v[1][0] == "const" and isinstance(v[1][1], str) and v[2][0] in ("list", "tuple") \
+            and all(e[0] in ("const", "fstr") and (e[0] != "const" or isinstance(e[1], str)) for e in v[2][1]):
+        parts = []
+        for i, e in enumerate(v[2][1]):
+            if i and v[1][1]:
+                parts.append(v[1])
+            parts.extend(e[1] if e[0] == "fstr" else [e])
+        return flatten_fstr(("fstr", tuple(parts)))
     if k == "binop" and v[1] == "Add" and is_str(v[2]) and is_str(v[3]):
         def parts(x):
             if x[0] == "fstr":
@@ -766,12 +787,18 @@ def simp(v):
     if k == "item" and v[1][0] in ("tuple", "list") and isinstance(v[2], int) and not any(e[0] == "star" for e in v[1][1]):
         if -len(v[1][1]) <= v[2] < len(v[1][1]):
             return v[1][1][v[2]]
+    if k == "idx" and v[1][0] == "call" and v[1][1] == ("global", "zip") and v[1][2] and not v[1][3]:
+        bases = {seq_base(a) for a in v[1][2]}
+        if len(bases) == 1 and None not in bases:
+            return ("idx", next(iter(bases)), v[2])
     if k == "idx" and v[1][0] in ("comp", "copy"):
         m = as_map(v[1])
         if m and not m[3]:
             return ("idx", m[2], v[2])
     if k == "sub" and v[2][0] == "idx" and v[2][1] == v[1]:
         return ("elem", v[1], v[2][2])
+    if k == "elem" and v[1][0] == "phi":
+        return ("phi", v[1][1], simp(("elem", v[1][2], v[2])), simp(("elem", v[1][3], v[2])))
     if k == "elem":
         seq = v[1]
         if seq[0] in ("comp", "copy"):
@@ -904,3 +931,82 @@ def canon_ids(v, loopmap=None):
             return (x[0], rec(x[1]), loopmap.get(x[2], x[2]))
         return tuple(rec(y) for y in x)
     return rec(v)
+
+
+# ------------------------------------------------------------------ partial evaluation of variants
+
+def truthy(v):
+    """Truthiness of a string/number-valued IR when it is decidable from its shape; else None."""
+    if v[0] == "const":
+        return bool(v[1])
+    if v[0] == "fstr":
+        return True if any(p[0] == "const" and p[1] for p in v[1]) else None
+    if v[0] in ("list", "tuple"):
+        return bool(v[1])
+    return None
+
+
+def peval(v, assume: dict):
+    """Specialise an IR under assumed truth values of conditions (keys: IR of the condition)."""
+    if not isinstance(v, tuple) or not v:
+        return v
+    if v in assume:
+        return ("const", assume[v])
+    k = v[0]
+    if k == "ifexp":
+        c = peval(v[1], assume)
+        t = truthy(c)
+        if t is True:
+            return peval(v[2], assume)
+        if t is False:
+            return peval(v[3], assume)
+        return ("ifexp", c, peval(v[2], assume), peval(v[3], assume))
+    if k == "bool":
+        vals = [peval(x, assume) for x in v[2]]
+        out = []
+        for x in vals:
+            t = truthy(x)
+            if v[1] == "And":
+                if t is False:
+                    return x if not out else ("bool", "And", tuple(out + [x]))
+                if t is True:
+                    last = x
+                    continue
+                out.append(x)
+            else:
+                if t is True:
+                    return x if not out else ("bool", "Or", tuple(out + [x]))
+                if t is False:
+                    last = x
+                    continue
+                out.append(x)
+        if not out:
+            return vals[-1]
+        return ("bool", v[1], tuple(out)) if len(out) > 1 else out[0]
+    if k == "unop" and v[1] == "Not":
+        x = peval(v[2], assume)
+        t = truthy(x)
+        return ("const", not t) if t is not None else ("unop", "Not", x)
+    if k == "phi":
+        c = peval(v[1], assume)
+        t = truthy(c)
+        if t is True:
+            return peval(v[2], assume)
+        if t is False:
+            return peval(v[3], assume)
+        return ("phi", c, peval(v[2], assume), peval(v[3], assume))
+    return simp(tuple(peval(x, assume) if isinstance(x, tuple) else x for x in v))
+
+
+def expand_bvals(flow, v):
+    """Replace comprehension variables that stand for destructured enumerate/zip
+    items by their meaning (elem/idx of the iterated sequences)."""
+    m = {}
+    for lp in flow.all_loops.values():
+        m.update(lp.bvals)
+    for _ in range(4):
+        v2 = simp(subst(v, m))
+        if v2 == v:
+            break
+        v = v2
+    return v
